@@ -166,9 +166,11 @@ Raise == /\ pc' = "idle" /\ op' = NoOp /\ pos' = -1 /\ last' = "raised"
 
 (* ---- update_file_custom_metadata(path, upd) ---- *)
 
-KvBegin(upd) ==
+(* ord = iteration order of the caller's update dict (0: key order, 1: reversed).  The contract does not depend *)
+(* on it - the parameter exists so that the replay of the history tree covers both orders.                     *)
+KvBegin(upd, ord) ==
   /\ Idle /\ nops < MaxOps
-  /\ pc' = "kv_tail" /\ op' = [kind |-> "kv", upd |-> upd] /\ pos' = 0 /\ nops' = nops + 1
+  /\ pc' = "kv_tail" /\ op' = [kind |-> "kv", upd |-> upd, ord |-> ord] /\ pos' = 0 /\ nops' = nops + 1
   /\ UNCHANGED <<file, isMeta, com, rgext, nrg, last>>
 
 (* loc0 = f.seek(-8, 2); size = read(4); loc = loc0 - size      [or loc = 4] *)
@@ -311,7 +313,9 @@ AppClose ==
 
 NonTrivialUpd(u) == \E k \in Keys : u[k] # Absent
 
-DoKvBegin        == EnableKv /\ \E u \in Updates : NonTrivialUpd(u) /\ KvBegin(u)
+Mentioned(u)     == {k \in Keys : u[k] # Absent}
+DoKvBegin        == EnableKv /\ \E u \in Updates : \E ord \in 0..1 :
+                       /\ NonTrivialUpd(u) /\ (ord = 1 => Cardinality(Mentioned(u)) >= 2) /\ KvBegin(u, ord)
 DoKvWriteFooter  == pc = "kv_write" /\ KvWriteFooter(CSize(KvNewContent))
 DoAppBegin       == EnableAppend /\ \E k \in 0..MaxNewRgs : \E fg \in 0..k : \E fc \in 1..NCols :
                        (fg = 0 => fc = 1) /\ (fg # 0 => EnableFail) /\ AppBegin(k, fg, fc)
